@@ -1,6 +1,7 @@
 package main
 
 import (
+	"go/token"
 	"crypto/sha256"
 	"encoding/json"
 	"flag"
@@ -33,6 +34,7 @@ type Scope_ struct {
 	ThoroughTimeout [2]int `json:"thorough_timeout"`
 	StaticOnly  bool     `json:"static_only"`  // generate only the static obligations
 	Static      []string `json:"static"`       // syntactic frame obligations over the scope: "noglobal", "nogo"
+	GuardedPkgs []string `json:"guarded_pkgs"` // packages whose goroutine-shared struct fields get lock-ownership obligations (kind guarded)
 	GlobalsAllowed []string `json:"globals_allowed"` // package-level variables that may be written (regexps), with the reason in the description
 	NotDecided  []string `json:"not_decided"` // parts of the property not decided by this check (documentation, copied to evidence)
 }
@@ -235,6 +237,9 @@ func cmdCheck(args []string) {
 	if len(sc.Static) > 0 {
 		results = append(results, e.staticObligations(&sc, fns)...)
 	}
+	if len(sc.GuardedPkgs) > 0 {
+		results = append(results, e.guardedObligations(&sc)...)
+	}
 	// kind filter
 	if len(sc.Kinds) > 0 {
 		keep := map[string]bool{"cover": true}
@@ -414,7 +419,11 @@ func cmdCheck(args []string) {
 		"SMT solvers z3 5.1.0 (z3-new), z3 4.8.12, cvc5 1.0.3",
 		"Go slices/strings: len,cap,offset <= 2^40; references of inputs < 2^40 (fresh allocations above)")
 	for t := range e.trusted {
-		trusted = append(trusted, "stdlib contract: "+t)
+		if strings.HasPrefix(t, "interface contract assumed") {
+			trusted = append(trusted, "assumed contract: "+t)
+		} else {
+			trusted = append(trusted, "stdlib contract: "+t)
+		}
 	}
 	sort.Strings(trusted[4:])
 	var fnNames []string
@@ -520,6 +529,22 @@ func (e *Env) staticObligations(sc *Scope_, fns []*ssa.Function) []*FuncResult {
 			}
 			r.Obs = append(r.Obs, ob)
 		}
+		if want["poolown"] {
+			// ownership of pooled buffers: after utils.ReleaseBuffer(b) (not deferred) the function must not touch b
+			// or a slice derived from it — another handle may already own the buffer (the pool is the one piece of
+			// state that independent handles share)
+			ob := &Oblig{Name: funcName(fn) + "#poolown#no use of a pooled buffer after its release#0", Kind: "poolown", Func: funcName(fn), Text: "no use of a pooled buffer after its release",
+				Hyp: tTrue, Goal: tTrue, Pre: true, Backend: "syntactic ownership analysis over go/ssa", Status: "discharged"}
+			var bads []string
+			for _, p := range usesAfterReleasePos(fn) {
+				bads = append(bads, e.pos(p))
+			}
+			if len(bads) > 0 {
+				ob.Status = "failed-unknown"
+				ob.Output = "buffer used after ReleaseBuffer at " + strings.Join(bads, ", ")
+			}
+			r.Obs = append(r.Obs, ob)
+		}
 		if want["nogo"] {
 			ob := &Oblig{Name: funcName(fn) + "#nogo#starts no goroutine#0", Kind: "nogo", Func: funcName(fn), Text: "starts no goroutine",
 				Hyp: tTrue, Goal: tTrue, Pre: true, Backend: "syntactic analysis over go/ssa", Status: "discharged"}
@@ -530,6 +555,137 @@ func (e *Env) staticObligations(sc *Scope_, fns []*ssa.Function) []*FuncResult {
 			r.Obs = append(r.Obs, ob)
 		}
 		out = append(out, r)
+	}
+	return out
+}
+
+
+// usesAfterReleasePos: positions of instructions that use a pooled buffer (or a value derived from it by slicing,
+// indexing, phi or conversion) on some path after a non-deferred utils.ReleaseBuffer call on it.
+func usesAfterReleasePos(fn *ssa.Function) []token.Pos {
+	var out []token.Pos
+	for _, b := range fn.Blocks {
+		for i, ins := range b.Instrs {
+			call, ok := ins.(*ssa.Call)
+			if !ok {
+				continue
+			}
+			callee := call.Call.StaticCallee()
+			if callee == nil || callee.Name() != "ReleaseBuffer" || callee.Pkg == nil || callee.Pkg.Pkg.Name() != "utils" || len(call.Call.Args) != 1 {
+				continue
+			}
+			// alias set of the released value: what it was derived from and what is derived from those
+			alias := map[ssa.Value]bool{}
+			var up func(v ssa.Value)
+			up = func(v ssa.Value) {
+				if alias[v] {
+					return
+				}
+				alias[v] = true
+				switch x := v.(type) {
+				case *ssa.Slice:
+					up(x.X)
+				case *ssa.ChangeType:
+					up(x.X)
+				case *ssa.Phi:
+					for _, e := range x.Edges {
+						up(e)
+					}
+				}
+			}
+			up(call.Call.Args[0])
+			// the instruction that (re)defines the buffer: past it a path works on a newly acquired buffer
+			var rootDef ssa.Instruction
+			{
+				v := call.Call.Args[0]
+				for {
+					if sl, ok := v.(*ssa.Slice); ok {
+						v = sl.X
+						continue
+					}
+					if ct, ok := v.(*ssa.ChangeType); ok {
+						v = ct.X
+						continue
+					}
+					break
+				}
+				if in0, ok := v.(ssa.Instruction); ok {
+					if _, isPhi := v.(*ssa.Phi); !isPhi {
+						rootDef = in0
+					}
+				}
+			}
+			changed := true
+			for changed {
+				changed = false
+				for _, bb := range fn.Blocks {
+					for _, in2 := range bb.Instrs {
+						v, isVal := in2.(ssa.Value)
+						if !isVal || alias[v] {
+							continue
+						}
+						switch x := in2.(type) {
+						case *ssa.Slice:
+							if alias[x.X] {
+								alias[v] = true
+								changed = true
+							}
+						case *ssa.IndexAddr:
+							if alias[x.X] {
+								alias[v] = true
+								changed = true
+							}
+						case *ssa.ChangeType:
+							if alias[x.X] {
+								alias[v] = true
+								changed = true
+							}
+						}
+					}
+				}
+			}
+			// instructions reachable after the release (same block after it, then successors transitively)
+			seen := map[*ssa.BasicBlock]bool{}
+			check := func(in2 ssa.Instruction) {
+				switch in2.(type) {
+				case *ssa.Slice, *ssa.IndexAddr, *ssa.ChangeType, *ssa.Phi, *ssa.DebugRef:
+					return // deriving a value is not a use; the use of the derived value is
+				}
+				if c2, ok := in2.(*ssa.Call); ok {
+					if cc := c2.Call.StaticCallee(); cc != nil && cc.Name() == "ReleaseBuffer" {
+						return
+					}
+				}
+				for _, op := range in2.Operands(nil) {
+					if *op != nil && alias[*op] {
+						out = append(out, in2.Pos())
+						return
+					}
+				}
+			}
+			for _, in2 := range b.Instrs[i+1:] {
+				check(in2)
+			}
+			var walk func(bb *ssa.BasicBlock)
+			walk = func(bb *ssa.BasicBlock) {
+				if seen[bb] {
+					return
+				}
+				seen[bb] = true
+				for _, in2 := range bb.Instrs {
+					if in2 == ins || (rootDef != nil && in2 == rootDef) {
+						return // the buffer is released again or re-acquired: this path is done
+					}
+					check(in2)
+				}
+				for _, s := range bb.Succs {
+					walk(s)
+				}
+			}
+			for _, s := range b.Succs {
+				walk(s)
+			}
+		}
 	}
 	return out
 }
